@@ -32,11 +32,11 @@ import vlib
 PID = "C19"
 ALL_FAMS = '{"fft","twid","poly","binv","closed","bary"}'
 
-MC_QUICK = [("PolyMC5.cfg", {"P": 5, "n": "1..4", "mode": "all polynomials len<=3, all vectors len<=4"}),
+MC_QUICK = [("PolyMC5.cfg", {"P": 5, "n": "1..4", "mode": "all polynomials len<=2, all vectors len<=4"}),
             ("PolyMC17.cfg", {"P": 17, "n": "1..16", "mode": "all vectors len<=3 on n<=4 + basis"}),
             ("PolyMC97.cfg", {"P": 97, "n": "1..32", "mode": "basis + length classes, all points"}),
-            ("PolyMC257Q.cfg", {"P": 257, "n": "1..32", "mode": "fft/twiddle/arithmetic families"})]
-MC_THOROUGH = [("PolyMC5.cfg", {"P": 5, "n": "1..4", "mode": "all polynomials len<=3, all vectors len<=4"}),
+            ("PolyMC257Q.cfg", {"P": 257, "n": "1..32", "mode": "fft and twiddle families"})]
+MC_THOROUGH = [("PolyMC5T.cfg", {"P": 5, "n": "1..4", "mode": "all polynomials len<=3, all vectors len<=4"}),
                ("PolyMC17T.cfg", {"P": 17, "n": "1..16", "mode": "all vectors len<=4 on n<=4 + basis"}),
                ("PolyMC97.cfg", {"P": 97, "n": "1..32", "mode": "basis + length classes, all points"}),
                ("PolyMC193T.cfg", {"P": 193, "n": "1..64", "mode": "basis + length classes, all points"}),
